@@ -370,11 +370,12 @@ def validate_result(ctx, R, sel, m, index, must, may, sig, det, src_vals, deep):
     return mapping
 
 
-def data_checks(ctx, U, gsrc, sel, m, en, index, rng, sig, det, must=()):
+def data_checks(ctx, U, gsrc, sel, m, en, index, rng, sig, det, must=(), may=None):
     """Select through id-valued data of each kind; the values identify the source element each result element came from."""
     lead = tuple(int(x) for x in rng.integers(1, 3, size=int(rng.integers(0, 3))))
     ldims = ["t%d" % i for i in range(len(lead))]
     n_by = {"n_face": m.n_face, "n_node": m.n_node, "n_edge": len(en)}
+    n_face_through_data = None
     for dim in ("n_face", "n_node", "n_edge"):
         n_el = n_by[dim]
         ids = np.broadcast_to(np.arange(n_el, dtype=float), lead + (n_el,)).copy()
@@ -412,12 +413,20 @@ def data_checks(ctx, U, gsrc, sel, m, en, index, rng, sig, det, must=()):
             ctx.check("data_attached", okm, dict(dsig, what="dims/shape/grid"), dict(det, dims=list(r.dims), shape=list(vals.shape), n_res=n_res))
             if not okm:
                 continue
+            if dim != "n_face" and n_face_through_data is not None:
+                ctx.check("face_set", R.n_face == n_face_through_data, dict(dsig, why="same selection through data of another kind"), dict(det, n_face=int(R.n_face), n_face_via_face_data=n_face_through_data))
             got_ids = np.rint(vals - off).astype(int)
             same_all_lead = bool(np.all(got_ids == got_ids.reshape(-1, n_res)[0]))
             row = got_ids.reshape(-1, n_res)[0]
             if dim == "n_face":
                 mapping, why = match_faces(R, m, index)
                 good = mapping is not None and list(row) == mapping
+                if mapping is not None and may is not None:
+                    # the selection made THROUGH THE DATA ARRAY is held to the same region semantics as the grid's own
+                    fs = set(mapping)
+                    ctx.check("face_set", set(must) <= fs <= set(may), dict(dsig, why="selected through the data array"),
+                              dict(det, missing=sorted(set(must) - fs)[:6], extra=sorted(fs - set(may))[:6], n_result=len(fs), n_must=len(must), n_may=len(may)))
+                    n_face_through_data = len(fs)
             elif dim == "n_node":
                 P = ux.grid_node_xyz(R)
                 good = bool(np.all((row >= 0) & (row < m.n_node))) and bool(np.all(ref.angle(P, m.xyz[np.clip(row, 0, m.n_node - 1)]) < np.where(np.abs(P[:, 2]) > 1 - 1e-7, 2e-4, 1e-9)))
@@ -514,7 +523,7 @@ def run_case(ctx, case):
                 ctx.mark_nontrivial((s_i, label))
         if "fresh" in results and "warm" in results:
             ctx.check("history_independent", results["fresh"] == results["warm"], sig, dict(det, warmed=warmed, fresh=str(results["fresh"])[:120], warm=str(results["warm"])[:120]))
-        data_checks(ctx, U, factory() if s_i % 2 else warm, sel, m, en, index, rng, sig, det, must)
+        data_checks(ctx, U, factory() if s_i % 2 else warm, sel, m, en, index, rng, sig, det, must, may)
         ctx.observe("selections")
         ctx.observe("sel_" + sel["kind"])
         if ctx.observed.get("selections", 0) <= 2:
